@@ -117,6 +117,42 @@ def base_grammars():
         NT("Y", [A("e", "Y"), A("e")]),
     ], tags=["lane-table state split", "paper example G1"], not_lalr=True))
 
+    gs.append(Grammar("lane_g2", terms("a b c d e"), [
+        NT("G", [A("a", "X", "d"), A("a", "Y", "c"), A("b", "X", "c"), A("b", "Y", "d")], pub=True),
+        NT("X", [A("e")]),
+        NT("Y", [A("e")]),
+    ], tags=["lane-table state split", "reduce/reduce is the only difference (example G2)"], not_lalr=True))
+
+    # G1 with two recursive letters: several inconsistent LR(0) states; splitting one clones another
+    gs.append(Grammar("lane_g1_ef", terms("a b c d e x"), [
+        NT("G", [A("a", "X", "d"), A("a", "Y", "c"), A("b", "X", "c"), A("b", "Y", "d")], pub=True),
+        NT("X", [A("e", "X"), A("e"), A("x", "X"), A("x")]),
+        NT("Y", [A("e", "Y"), A("e"), A("x", "Y"), A("x")]),
+    ], tags=["lane-table state split", "several inconsistent states", "clone of an unresolved state"], not_lalr=True))
+
+    gs.append(Grammar("lane_3way", terms("a b c d e x"), [
+        NT("G", [A("a", "X", "d"), A("a", "Y", "c"), A("a", "Z", "x"), A("b", "X", "c"), A("b", "Y", "x"), A("b", "Z", "d")], pub=True),
+        NT("X", [A("e", "X"), A("e")]),
+        NT("Y", [A("e", "Y"), A("e")]),
+        NT("Z", [A("e", "Z"), A("e")]),
+    ], tags=["lane-table state split", "three-way reduce/reduce"], not_lalr=True))
+
+    # the large example of the lane-table paper (shortest sentences have 6 tokens)
+    g = Grammar("lane_large", terms("x y z u a b r t k s d c w v"), [
+        NT("G", [A("x", "W", "a"), A("x", "V", "t"), A("y", "W", "b"), A("y", "V", "t"), A("z", "W", "r"), A("z", "V", "b"),
+                 A("u", "U", "X", "a"), A("u", "U", "Y", "r")], pub=True),
+        NT("W", [A("U", "X", "C")]),
+        NT("V", [A("U", "Y", "d")]),
+        NT("X", [A("k", "t", "U", "X", "P"), A("k", "t")]),
+        NT("Y", [A("k", "t", "U", "Y", "u"), A("k", "t")]),
+        NT("U", [A("U", "k", "t"), A("s")]),
+        NT("E", [A("a"), A("b"), A("c"), A("v")]),
+        NT("C", [A("c"), A("w")]),
+        NT("P", [A("z")]),
+    ], tags=["lane-table paper large example", "unused nonterminal E"])
+    g.min_n = 7
+    gs.append(g)
+
     gs.append(Grammar("palin", terms("a b c"), [
         NT("P", [A("a", "P", "a"), A("b", "P", "b"), A("c")], pub=True),
     ], tags=["center-marked palindromes", "deep stack"]))
